@@ -1,4 +1,6 @@
 """C04 -- a kill request is never lost and no live process is unkillable."""
+import itertools
+
 from pv import judges, lifecycle, plans, programs
 
 ID = 'C04'
@@ -16,15 +18,17 @@ ALPHABET = [['pause', 'p'], ['play'], ['kill', 'k'], ['resume', ['v']], ['cancel
 KILLS = ('kill', 'cancel_future')
 LISTENER_EVENTS = ['running', 'waiting', 'paused', 'played', 'output']
 BOUNDS = {'quick': 'basic program family, K<=2 exhaustive, K=3 over {pause,play,kill} within neighbouring slots, listener/step-issued kills K=1 (+1 slot request)',
-          'thorough': '+ 40 random programs, K=3/4 sampled'}
+          'thorough': 'K=3 exhaustive on 4 key programs, + 40 random programs, K=3/4 sampled'}
 
 
 def _has_kill(plan):
     return any(e['act'][0] in KILLS for e in plan)
 
 
+DEEP = ('wait_async', 'cont_async', 'out_async', 'wait2')  # thorough: K=3 exhaustive on these
+
+
 def gen_cases(tier, seed):
-    cases = []
     progs = dict(programs.basic_programs())
     rng = plans.rng_for(seed, 'c04')
     for n in range(40 if tier == 'thorough' else 6):
@@ -45,7 +49,6 @@ def gen_cases(tier, seed):
                         for s in (range(0, n + 1) if tier == 'thorough' else range(0, n + 1, 2)):
                             plist.append([{'at': s, 'act': other}, base])
         # three requests within one step (same slot or neighbouring slots), every combination of pause / play / kill with a kill
-        import itertools
         small = [['pause', 'p'], ['play'], ['kill', 'k']]
         for s0 in range(0, n + 1):
             for off in ((0, 0, 0), (0, 0, 1), (0, 1, 1), (0, 1, 2)):
@@ -62,10 +65,12 @@ def gen_cases(tier, seed):
         if tier == 'thorough':
             plist += [p for p in plans.sampled_placements(rng, n, ALPHABET, 3, 1500) if _has_kill(p)]
             plist += [p for p in plans.sampled_placements(rng, n, ALPHABET, 4, 800) if _has_kill(p)]
-        for i, plan in enumerate(plist):
-            cases.append({'name': name, 'program': prog, 'plan': plans.uniq(plan, 'q%d' % i), 'drain': True, 'probe': True,
-                          'barrage': False, 'listener': True})
-    return cases
+        deep = ()
+        if tier == 'thorough' and name in DEEP:
+            deep = (p for p in plans.all_placements(n, [['pause', 'p'], ['play'], ['kill', 'k'], ['resume', ['v']]], 3) if _has_kill(p))
+        for i, plan in enumerate(itertools.chain(plist, deep)):
+            yield {'name': name, 'program': prog, 'plan': plans.uniq(plan, 'q%d' % i), 'drain': True, 'probe': True,
+                          'barrage': False, 'listener': True}
 
 
 def _kill_phase(a):
